@@ -6,6 +6,9 @@ package kernel
 
 import (
 	"fmt"
+	"sync/atomic"
+	"syscall"
+	"time"
 
 	"verif/sim/core"
 )
@@ -69,6 +72,9 @@ type Kernel struct {
 	OnStep func(cur *Task, site int)
 	// Deadlock is set when no task was runnable while some were parked.
 	Deadlock bool
+	// Stuck is set when a task blocked outside the kernel's control (see Run).
+	Stuck    bool
+	progress int64
 	started  bool
 }
 
@@ -164,9 +170,46 @@ func (k *Kernel) Run() {
 	first := k.pick(nil, 0)
 	k.cur = first
 	first.run <- struct{}{}
-	<-k.done
-	k.cur = nil
-	k.started = false
+	// Wait for the tasks. A task that blocks on something the kernel does not
+	// own (a real mutex held by a task parked at a yield, a channel) while it
+	// holds the baton would stall everything: the code under test is then not
+	// wrong, the uninstrumented seams are simply not enough to schedule it.
+	// Such a run is abandoned as inconclusive (Stuck), never reported.
+	tick := time.NewTicker(500 * time.Millisecond)
+	defer tick.Stop()
+	lastSteps, lastCPU, idle := int64(-1), processCPU(), 0
+	for {
+		select {
+		case <-k.done:
+			k.cur = nil
+			k.started = false
+			return
+		case <-tick.C:
+			steps := atomic.LoadInt64(&k.progress)
+			cpu := processCPU()
+			if steps == lastSteps && cpu-lastCPU < 20*time.Millisecond {
+				idle++
+			} else {
+				idle = 0
+			}
+			lastSteps, lastCPU = steps, cpu
+			if idle >= 4 { // 2 s without a scheduling event and without CPU use
+				k.Stuck = true
+				k.aborting = true
+				k.cur = nil
+				k.started = false
+				return // the blocked goroutines are leaked; the caller discards this kernel
+			}
+		}
+	}
+}
+
+func processCPU() time.Duration {
+	var ru syscall.Rusage
+	if syscall.Getrusage(syscall.RUSAGE_SELF, &ru) != nil {
+		return 0
+	}
+	return time.Duration(ru.Utime.Nano() + ru.Stime.Nano())
 }
 
 func (k *Kernel) abort(why string) {
@@ -278,6 +321,7 @@ func (k *Kernel) pick(cur *Task, site int) *Task {
 // handoff passes the baton on from a task that finished (from == nil) or
 // parked; it does not wait.
 func (k *Kernel) handoff(from *Task) {
+	atomic.AddInt64(&k.progress, 1)
 	next := k.pick(nil, 0)
 	if next == nil {
 		// nobody runnable: finished, or deadlocked on parked tasks
@@ -318,6 +362,7 @@ func (k *Kernel) Yield(site int) {
 		panic(abortPanic{})
 	}
 	k.Steps++
+	atomic.AddInt64(&k.progress, 1)
 	cur.Steps++
 	if site != SpinSite {
 		cur.OpSteps++
